@@ -95,15 +95,17 @@ ExpS(s, macros, files, deep) ==
          ELSE text
     [] OTHER -> <<s>>
 
-(* top-level constants with a unique name and a constant-free right-hand side are replaced by their value *)
+(* top-level constants with a unique name are replaced by their (parenthesised) value, one after the other; the value is
+   taken from the program as rewritten so far, so a constant defined in terms of another inlined constant ends up closed *)
+RECURSIVE InlineFrom(_, _, _)
+InlineFrom(q, p, S) ==
+  IF S = {} THEN q
+  ELSE LET i == CHOOSE i \in S : \A j \in S : i <= j
+           d == q[CHOOSE k \in 1..Len(q) : q[k].k = "const" /\ q[k].name = p[i].name] IN
+       InlineFrom(SubstSeq(q, p[i].name, ParE(d.e)), p, S \ {i})
 InlineConsts(p) ==
   LET idx == {i \in 1..Len(p) : p[i].k = "const" /\ Cardinality({j \in 1..Len(p) : p[j].k \in {"const", "var", "label"} /\ p[j].name = p[i].name}) = 1}
-      F[S \in SUBSET idx] ==
-        IF S = {} THEN p
-        ELSE LET i == CHOOSE i \in S : TRUE
-                 q == F[S \ {i}] IN
-             SubstSeq(q, p[i].name, ParE(p[i].e))
-  IN SelectSeq(F[idx], LAMBDA s : ~(s.k = "const" /\ \E i \in idx : p[i].name = s.name))
+  IN SelectSeq(InlineFrom(p, p, idx), LAMBDA s : ~(s.k = "const" /\ \E i \in idx : p[i].name = s.name))
 
 ExpandAll(p, files) == ExpSeq(p, <<>>, files, TRUE)
 Expand1(p, files) == ExpSeq(p, <<>>, files, FALSE)
